@@ -230,6 +230,7 @@ def _arm_args(args, kwargs):
 def pre_arm(run, args, kwargs):
     a = _arm_args(args, kwargs)
     run._tls.seg_inner = []
+    run._tls.seg_extra_verdicts = []
     return {"bins": bins_of(a["cnarr"]), "method": a["method"], "skip_low": bool(a["skip_low"]),
             "skip_outliers": a["skip_outliers"], "min_weight": a["min_weight"], "variants": a["variants"] is not None,
             "has_weight": "weight" in a["cnarr"].data.columns, "t_call": time.time()}
@@ -256,6 +257,8 @@ def _emit(run, snap, verdicts, cls, ood, segs, surv_keys, exc=None):
 def post_arm(run, snap, res, args, kwargs):
     inner = getattr(run._tls, "seg_inner", None) or []
     run._tls.seg_inner = None
+    extra_verdicts = getattr(run._tls, "seg_extra_verdicts", None) or []
+    run._tls.seg_extra_verdicts = None
     b = snap["bins"]
     method = snap["method"]
     if isinstance(res, tuple):
@@ -269,7 +272,7 @@ def post_arm(run, snap, res, args, kwargs):
         return _emit(run, snap, [], None, why, None, [])
     surv_keys = [k for rec in inner for k in rec]
     segs = bins_of(res) if hasattr(res, "data") else None
-    verdicts = []
+    verdicts = list(extra_verdicts)
     # survivors vs the deterministic filter model
     model = model_survivors(b, snap["skip_low"], snap["min_weight"])
     mkeys = [(b["chromosome"][i], b["start"][i], b["end"][i]) for i in model]
@@ -559,6 +562,67 @@ def exc_call(run, snap, exc, args, kwargs):
                 {"method": snap["method"], "bins": {k: v for k, v in b.items() if k != "n"}})
 
 
+# ------------------------------------------------------------ outlier filter
+# What an outlier *is* belongs to smoothing.rolling_outlier_quantile (not to this property); which bins leave the table
+# does: exactly the bins flagged on their own chromosome's log2 track, in table order.
+
+def _pre_outliers(run, args, kwargs):
+    cn = args[0]
+    if not hasattr(cn, "data") or not len(cn):
+        return None
+    df = cn.data
+    return {"chrom": [str(c) for c in df["chromosome"].tolist()], "log2": df["log2"].to_numpy(float).copy(),
+            "keys": list(zip((str(c) for c in df["chromosome"].tolist()), df["start"].tolist(), df["end"].tolist())),
+            "width": args[1] if len(args) > 1 else kwargs.get("width"), "factor": args[2] if len(args) > 2 else kwargs.get("factor")}
+
+
+def _post_outliers(run, snap, res, args, kwargs):
+    mon = "segmentation.drop_outliers"
+    if snap is None:
+        return
+    import cnvlib.smoothing as SM
+    from .. import runtime as rt_mod
+    roq = getattr(SM, "rolling_outlier_quantile", None)
+    if roq is None or snap["width"] is None:
+        return run.ood(mon, "no-outlier-detector-to-consult")
+    roq = rt_mod.original(roq)
+    chrom = snap["chrom"]
+    blocks, seen = [], set()
+    for i, c in enumerate(chrom):
+        if not blocks or blocks[-1][0] != c:
+            if c in seen:
+                return run.ood(mon, "chromosome-not-contiguous")
+            seen.add(c)
+            blocks.append([c, i, i + 1])
+        else:
+            blocks[-1][2] = i + 1
+    flagged = np.zeros(len(chrom), bool)
+    try:
+        for _c, a, z in blocks:
+            flagged[a:z] = np.asarray(roq(snap["log2"][a:z], snap["width"], 0.95, snap["factor"]), bool)
+    except Exception:
+        return run.ood(mon, "outlier-detector-raised")
+    want = [k for k, f in zip(snap["keys"], flagged) if not f]
+    df = res.data
+    got = list(zip((str(c) for c in df["chromosome"].tolist()), df["start"].tolist(), df["end"].tolist()))
+    if got != want:
+        lost = [k for k in want if k not in set(got)][:3]
+        kept = [k for k in got if k not in set(want)][:3]
+        v = ("outlier-filter-removed-other-bins-than-the-flagged-ones",
+             f"{int(flagged.sum())} bins are flagged on their own chromosome's track; wrongly removed {lost}, wrongly kept {kept}")
+        pend = getattr(run._tls, "seg_extra_verdicts", None)
+        if pend is not None:
+            pend.append(v)
+        else:
+            run.violate(mon, v[0], v[1], {"keys": snap["keys"][:400], "log2": snap["log2"][:400].tolist(), "flagged": np.nonzero(flagged)[0].tolist()[:50]})
+        return
+    run.extra["outlier-filter-calls-judged"] += 1
+    if flagged.any():
+        run.extra["outlier-filter-calls-with-flagged-bins"] += 1
+        if len(blocks) > 1:
+            run.extra["outlier-filter-calls-with-flagged-bins:several-chromosomes"] += 1
+
+
 def attach_all(run, rt, delays=True):
     import cnvlib.segmentation as S
     import cnvlib.commands as CM
@@ -572,6 +636,7 @@ def attach_all(run, rt, delays=True):
     rt.attach(haar, "segment_haar", name="haar.segment_haar[survivors]", pre=_pre_inner)
     rt.attach(none, "segment_none", name="none.segment_none[survivors]", pre=_pre_inner)
     rt.attach(hmm, "segment_hmm", name="hmm.segment_hmm[survivors]", pre=_pre_inner)
+    rt.attach(S, "drop_outliers", name="segmentation.drop_outliers", pre=_pre_outliers, post=_post_outliers)
     rt.attach(S, "_do_segmentation", name="segmentation._do_segmentation[arm]", pre=pre_arm, post=post_arm, on_exc=exc_arm)
     if delays and hasattr(S, "_ds"):
         S._ds = make_ds_delay(S._ds, os.getpid())
